@@ -1150,6 +1150,8 @@ def char_boundaries(ctx, bb, base, bounds):
     for a in other:
         if a[0] == "quant" and a[1] == "all" and a[4] is True and ("is_ascii" in a[3]) and a[2].startswith("[0..L)"):
             ascii_all = True
+        if a[0] == "quant" and a[1] == "within" and a[2].startswith("[0..L)") and (a[3].startswith("elems[") or (a[3].startswith("chars[") and not a[3].endswith("+nonascii"))):
+            ascii_all = True        # every character of the whole string is in an ASCII-only class
         if a[0] == "pred" and a[2] is True and "starts_with([0..L)," in a[1]:
             m = re.search(r"starts_with\(\[0\.\.L\),'([^']*)'\)", a[1])
             if m and m.group(1).isascii():
@@ -1279,11 +1281,29 @@ def rule_capacity(ctx, o):
     return ok, ("capacity <= %d: %s" % (lim, how))
 
 
+def rule_euclid(ctx, o):
+    """`a.div_euclid(b)` / `a.rem_euclid(b)` panic when b == 0 (and for signed MIN / -1): proved when b > 0"""
+    t = o.call
+    pb = ctx.sy.poly(ctx.an.terms.operand(t["args"][1]))
+    if pb is None:
+        return False, "divisor not polynomial"
+    ok, how = ctx.prove_ge0(o.bb, pb - Poly.const(1))
+    return ok, "divisor >= 1: %s" % how
+
+
+EUCLID_RE = re.compile(r"^<impl [iu](8|16|32|64|128|size)>::(div_euclid|rem_euclid)$")
+
+
 class _Rules(dict):
     def __missing__(self, k):
         if k.startswith("int-op:"):
             return rule_int_op
+        if EUCLID_RE.match(k):
+            return rule_euclid
         raise KeyError(k)
+
+    def __contains__(self, k):
+        return dict.__contains__(self, k) or (isinstance(k, str) and bool(EUCLID_RE.match(k)))
 
 
 CALL_RULES = _Rules()
